@@ -147,6 +147,79 @@ func init() {
 			e.LemmaPoints[name] = append(e.LemmaPoints[name], f)
 			return nil
 		},
+		"vCaptureStart": func(e *Exec, st *State, fn *ssa.Function, args []Val, where string) Val {
+			e.CaptureMark = len(e.Outs)
+			return nil
+		},
+		"vCaptureEnd": func(e *Exec, st *State, fn *ssa.Function, args []Val, where string) Val {
+			var acc Val = &StrV{}
+			for _, ev := range e.Outs[e.CaptureMark:] {
+				if ev.Chan != "stdout" {
+					continue
+				}
+				both := e.S.And(st.G, ev.Guard)
+				if both.IsFalse() {
+					continue
+				}
+				if both != st.G && !e.implied(st.G, ev.Guard, 0) {
+					// decide with the solver whether the event is on the current path
+					if !e.Feasible(both) {
+						continue
+					}
+					if e.Feasible(e.S.And(st.G, e.S.Not(ev.Guard))) {
+						panic(&UnsupportedErr{Msg: "captured output event is conditional on the current path at " + where})
+					}
+				}
+				if ev.Text != nil {
+					acc = e.strConcat(acc, ev.Text)
+				}
+			}
+			return acc
+		},
+		"vTokens": func(e *Exec, st *State, fn *ssa.Function, args []Val, where string) Val {
+			sv, ok := args[0].(*StrV)
+			if !ok {
+				panic(&UnsupportedErr{Msg: fmt.Sprintf("vTokens on %T at %s", args[0], where)})
+			}
+			var ints []Val
+			var texts []Val
+			cur := ""
+			flushInt := func(t *Term) {
+				texts = append(texts, &StrV{Conc: cur})
+				cur = ""
+				ints = append(ints, t)
+			}
+			for _, sg := range e.segsOf(sv) {
+				if sg.Dec != nil {
+					if cur != "" && cur[len(cur)-1] >= '0' && cur[len(cur)-1] <= '9' {
+						panic(&UnsupportedErr{Msg: "decimal segment adjacent to a literal digit at " + where})
+					}
+					flushInt(sg.Dec)
+					continue
+				}
+				i := 0
+				for i < len(sg.Text) {
+					c := sg.Text[i]
+					if c < '0' || c > '9' {
+						cur += string(c)
+						i++
+						continue
+					}
+					if len(ints) > 0 && cur == "" && len(texts) == len(ints) {
+						panic(&UnsupportedErr{Msg: "literal digit adjacent to a decimal segment at " + where})
+					}
+					j := i
+					for j < len(sg.Text) && sg.Text[j] >= '0' && sg.Text[j] <= '9' {
+						j++
+					}
+					k, _ := strconv.ParseInt(sg.Text[i:j], 10, 64)
+					flushInt(e.S.Int(k))
+					i = j
+				}
+			}
+			texts = append(texts, &StrV{Conc: cur})
+			return TupleV{e.mkSlice(st, types.Typ[types.Int], ints), e.mkSlice(st, types.Typ[types.String], texts)}
+		},
 		"vRegister": func(e *Exec, st *State, fn *ssa.Function, args []Val, where string) Val { return nil },
 	}
 }
@@ -308,6 +381,10 @@ func (e *Exec) fmtVerb(st *State, verb byte, flags string, a Val, where string) 
 		case isInteger(iv.T) && (verb == 'd' || verb == 'v'):
 			if k, ok := v.ConstInt(); ok {
 				return &StrV{Conc: fmt.Sprintf("%"+flags+"d", k)}
+			}
+			if e.DecSegs && flags == "" {
+				e.side("fmt-nonneg", st, e.S.Le(e.S.Int(0), v), where)
+				return &StrV{Segs: []Seg{{Dec: v}}}
 			}
 			return e.fmtSymInt(st, v, flags, where)
 		case isFloat(iv.T):
@@ -550,6 +627,41 @@ func init() {
 			return TupleV{e.S.False, e.mkError(&StrV{Conc: err.Error()})}
 		}
 		return TupleV{e.S.Bool(b), &IfaceV{}}
+	}
+	stubs["bytes.Index"] = func(e *Exec, st *State, fn *ssa.Function, args []Val, where string) Val {
+		sl, ok1 := args[0].(*SliceV)
+		sepEl := e.sliceElems(st, args[1], where)
+		if !ok1 || len(sepEl) != 1 {
+			e.unsupported(st, "bytes.Index with a separator that is not one byte at "+where)
+			return &Poison{Why: "bytes.Index"}
+		}
+		sep := e.term(sepEl[0], "sep")
+		s := e.S
+		max := e.MaxSymLen
+		if n, ok := sl.Len.ConstInt(); ok {
+			max = int(n)
+		} else {
+			e.side("symlen-bound", st, s.Le(sl.Len, s.Int(int64(max))), where)
+		}
+		res := s.Int(-1)
+		for j := max - 1; j >= 0; j-- {
+			inLen := s.Lt(s.Int(int64(j)), sl.Len)
+			if inLen.IsFalse() {
+				continue
+			}
+			sub := st.fork()
+			sub.G = s.And(sub.G, inLen)
+			ev := e.load(sub, &Ptr{Obj: sl.Obj, Path: appendStep(sl.Path, Step{Idx: e.slIdx(sl, s.Int(int64(j)))})}, where)
+			if sub.dead() {
+				continue
+			}
+			bt, ok := ev.(*Term)
+			if !ok {
+				continue
+			}
+			res = s.Ite(s.And(inLen, s.Eq(bt, sep)), s.Int(int64(j)), res)
+		}
+		return e.F.FromIndexInt(res, types.Typ[types.Int])
 	}
 	// sync: ghost lock state in an Opaque object cell
 	stubs["(*sync.Mutex).Lock"] = func(e *Exec, st *State, fn *ssa.Function, args []Val, where string) Val {
